@@ -87,6 +87,7 @@ func main() {
 	flag.BoolVar(&cfg.MapPerm, "mapperm", false, "explore map iteration orders")
 	flag.IntVar(&cfg.MapDev, "mapdev", 0, "bound: at most this many map ranges per path iterate in a permuted order (0 = unlimited)")
 	flag.StringVar(&timeLimit, "timelimit", "", "wall-clock limit (e.g. 10m)")
+	flag.IntVar(&QueryTimeoutMS, "qtimeout", 120000, "per-query solver timeout in milliseconds (0 = none); an expired query is inconclusive")
 	var initAllow string
 	flag.StringVar(&initAllow, "initallow", "", "comma-separated package paths whose initialisers are run in addition to the built-in list")
 	flag.StringVar(&out, "out", "", "result JSON path")
